@@ -231,6 +231,101 @@ pub open spec fn call_post(c: Config, call: Call, obscure: bool, r: Call) -> boo
     }
 }
 """, module="formatters::functions"),
+        # ---- call chains: format_suffix, format_function_call ----
+        Raw("""
+pub uninterp spec fn index_id(i: Index) -> int;
+// what C11 / C02 say about one suffix of a call chain, as a value: the form and the arguments of a call, the identity of an index
+pub enum SuffixShape { Call { sem: Seq<Skel>, parens: bool }, Method { name: int, sem: Seq<Skel>, parens: bool }, Index(int), Other }
+pub open spec fn suffix_shape(s: Suffix) -> SuffixShape {
+    match s {
+        Suffix::Call(Call::AnonymousCall(a)) => SuffixShape::Call { sem: args_sem(a), parens: a is Parentheses },
+        Suffix::Call(Call::MethodCall(m)) => SuffixShape::Method { name: tok_of(n_mc_name(&m)), sem: args_sem(n_mc_args(&m)), parens: n_mc_args(&m) is Parentheses },
+        Suffix::Index(i) => SuffixShape::Index(index_id(i)),
+        _ => SuffixShape::Other,
+    }
+}
+// the shape the formatted suffix has to have: `obscure` — an index or a method call follows — keeps the parentheses
+pub open spec fn wanted_shape(c: Config, s: Suffix, obscure: bool) -> SuffixShape {
+    match s {
+        Suffix::Call(Call::AnonymousCall(a)) => SuffixShape::Call { sem: args_sem(a), parens: !wants_sugar(c, a, obscure) },
+        Suffix::Call(Call::MethodCall(m)) => SuffixShape::Method { name: tok_of(n_mc_name(&m)), sem: args_sem(n_mc_args(&m)), parens: !wants_sugar(c, n_mc_args(&m), obscure) },
+        Suffix::Index(i) => SuffixShape::Index(index_id(i)),
+        _ => SuffixShape::Other,
+    }
+}
+pub open spec fn suffix_wf(s: Suffix) -> bool { match s { Suffix::Call(c) => call_wf(c), _ => true } }
+pub open spec fn obscured_by(next: Option<Suffix>) -> bool { match next { Some(Suffix::Index(_)) => true, Some(Suffix::Call(Call::MethodCall(_))) => true, _ => false } }
+pub uninterp spec fn fc_suffixes(f: FunctionCall) -> Seq<Suffix>;
+pub open spec fn next_of(s: Seq<Suffix>, i: int) -> Option<Suffix> { if i + 1 < s.len() { Some(s[i + 1]) } else { None } }
+pub assume_specification [FunctionCall::suffixes] (f: &FunctionCall) -> (r: impl Iterator<Item = &Suffix>)
+    ensures it_rest(&r).len() == fc_suffixes(*f).len(), forall|i: int| 0 <= i < it_rest(&r).len() ==> *(#[trigger] it_rest(&r)[i]) == fc_suffixes(*f)[i];
+pub assume_specification [FunctionCall::prefix] (f: &FunctionCall) -> (r: &Prefix);
+pub assume_specification [FunctionCall::new] (p: Prefix) -> (r: FunctionCall) ensures fc_suffixes(r).len() == 0;
+pub assume_specification [FunctionCall::with_suffixes] (f: FunctionCall, v: Vec<Suffix>) -> (r: FunctionCall) ensures fc_suffixes(r) == v@;
+impl UpdateLeadingTrivia for Suffix {
+    open spec fn same_sem(&self, r: &Self) -> bool { suffix_shape(*r) == suffix_shape(*self) }
+    open spec fn lead_ok(&self, t: FormatTriviaType, r: &Self) -> bool { true }
+    open spec fn on_new_line(&self) -> bool { other_nl(*self) }
+    open spec fn rest_same(&self, r: &Self) -> bool { true }
+    #[verifier::external_body] fn update_leading_trivia(&self, leading_trivia: FormatTriviaType) -> (r: Self) { unimplemented!() }
+}
+impl GetLeadingTrivia for Suffix {
+    open spec fn leads_with_comment(&self) -> bool { other_lc(*self) }
+    #[verifier::external_body] fn leading_trivia(&self) -> Vec<Token> { unimplemented!() }
+    #[verifier::external_body] fn has_leading_comments(&self, search: CommentSearch) -> (r: bool) { unimplemented!() }
+    #[verifier::external_body] fn leading_comments(&self) -> Vec<Token> { unimplemented!() }
+}
+impl GetTrailingTrivia for Suffix {
+    open spec fn ends_open(&self) -> bool { !other_closed(*self) }
+    #[verifier::external_body] fn trailing_trivia(&self) -> Vec<Token> { unimplemented!() }
+    #[verifier::external_body] fn has_trailing_comments(&self, search: CommentSearch) -> (r: bool) { unimplemented!() }
+    #[verifier::external_body] fn trailing_comments(&self) -> Vec<Token> { unimplemented!() }
+}
+impl GetTrailingTrivia for Prefix {
+    open spec fn ends_open(&self) -> bool { !other_closed(*self) }
+    #[verifier::external_body] fn trailing_trivia(&self) -> Vec<Token> { unimplemented!() }
+    #[verifier::external_body] fn has_trailing_comments(&self, search: CommentSearch) -> (r: bool) { unimplemented!() }
+    #[verifier::external_body] fn trailing_comments(&self) -> Vec<Token> { unimplemented!() }
+}
+#[verifier::external_body] pub fn peekable<I: Iterator>(it: I) -> (r: std::iter::Peekable<I>) ensures pk_rest(&r) == it_rest(&it) { it.peekable() }
+""", module="formatters::functions"),
+        Fn(EX, "format_index", mode="stub", proved_in="expr", contract="ensures index_id(r) == index_id(*index),"),
+        Fn(EX, "format_prefix", mode="stub", proved_in="expr"),
+        Fn(TU, "prepend_newline_indent", mode="stub", contract="ensures node.same_sem(&r),"),
+        Fn(EX, "format_suffix", contract="""
+    requires suffix_wf(*suffix),
+    ensures suffix_shape(r) == wanted_shape(ctx.config, *suffix, call_next_node is ObscureWithoutParens), //# C11.suffix_form
+"""),
+        Fn(FUN, "format_function_call", contract="""
+    requires forall|i: int| 0 <= i < fc_suffixes(*function_call).len() ==> suffix_wf(#[trigger] fc_suffixes(*function_call)[i]),
+             fc_suffixes(*function_call).len() < 0x7fff_ffff,   // the suffix counter is an i32 (stated bound: fewer than 2^31 suffixes in one chain)
+    ensures
+        fc_suffixes(r).len() == fc_suffixes(*function_call).len(), //# C02.call_chain_same
+        forall|i: int| 0 <= i < fc_suffixes(r).len() ==> suffix_shape(#[trigger] fc_suffixes(r)[i])
+            == wanted_shape(ctx.config, fc_suffixes(*function_call)[i], obscured_by(next_of(fc_suffixes(*function_call), i))), //# C11.call_chain_forms
+""", edits=[
+            Hole("let num_suffixes = function_call.suffixes().count();", "let num_suffixes = hole_usize();", why="Iterator::count: a capacity hint only"),
+            Between("let must_hang = function_call", "            must_hang\n        };", "let must_hang = hole_bool();", why="loop over the suffixes looking for comments: chooses the layout only"),
+            Between("let should_hang = {", "            false\n        }\n    };", "let should_hang = hole_bool(); keep_first_call_inlined = hole_bool();", why="trial formatting of the chain against the column width (sets keep_first_call_inlined as well): chooses the layout only"),
+            Hole("shape.take_last_line(&strip_leading_trivia(&formatted_prefix))", "shape.take_last_line(&formatted_prefix)", why="strip_leading_trivia only affects the measured width"),
+            Hole("let mut suffixes = function_call.suffixes().peekable();", "let mut suffixes = peekable(function_call.suffixes());\n    let ghost mut k: int = 0;", kind="wrapper", why="Iterator::peekable through a wrapper carrying the ghost sequence"),
+            Hole("""let mut previous_ends_with_comment = function_call
+        .prefix()
+        .has_trailing_comments(CommentSearch::Single);""", "let mut previous_ends_with_comment = hole_bool();", why="a comment behind the prefix: chooses the layout only"),
+            Loop("while let Some(suffix) = suffixes.next()", """
+        invariant
+            0 <= k <= fc_suffixes(*function_call).len(),
+            pk_rest(&suffixes).len() == fc_suffixes(*function_call).len() - k,
+            forall|j: int| 0 <= j < pk_rest(&suffixes).len() ==> *(#[trigger] pk_rest(&suffixes)[j]) == fc_suffixes(*function_call)[k + j],
+            forall|i: int| 0 <= i < fc_suffixes(*function_call).len() ==> suffix_wf(#[trigger] fc_suffixes(*function_call)[i]),
+            formatted_suffixes@.len() == k,
+            idx == k, fc_suffixes(*function_call).len() < 0x7fff_ffff,
+            forall|i: int| 0 <= i < k ==> suffix_shape(#[trigger] formatted_suffixes@[i])
+                == wanted_shape(ctx.config, fc_suffixes(*function_call)[i], obscured_by(next_of(fc_suffixes(*function_call), i))), //# C11.call_chain_loop
+        ensures k == fc_suffixes(*function_call).len(),
+        decreases pk_rest(&suffixes).len(),
+""", step="proof { k = k + 1; }"),
+        ]),
     ]
     return its
 
@@ -243,6 +338,10 @@ LABELS = {
     "C10.separator_or_indent": dict(props=["C10", "C11"], text="separator_or_indent: behind a line break the separator is the indent of the new line (never a space in front of the indentation), nothing where the line is already indented, and the wanted separator otherwise"),
     "C10.sugar_argument_separated": dict(props=["C10", "C11"], text="format_function_args: a string / table argument written without parentheses is separated from the function name by one space, or indented on its own line behind comments"),
     "C11.method_call_form": dict(props=["C11", "C02", "C10"], text="format_method_call: the same method name and arguments, the arguments in the form format_function_args decides, separated from the name as space_after_function_names says (indented on their own line behind comments; on a new line behind a line comment on the name)"),
+    "C11.suffix_form": dict(props=["C11", "C02"], text="format_suffix: a call suffix gets the form format_call / format_method_call decide for the `obscure` flag it is given, same arguments; an index stays the same index"),
+    "C02.call_chain_same": dict(props=["C02"], text="format_function_call: as many suffixes as the input"),
+    "C11.call_chain_forms": dict(props=["C11", "C02"], text="format_function_call: every suffix of the chain has the form the call_parentheses table gives for it, with `an index or a method call follows` computed from the suffix behind it (the exception that keeps f(\"x\").y from becoming f \"x\".y), same arguments, same order"),
+    "C11.call_chain_loop": dict(props=["C11", "C02"], text="format_function_call loop invariant: the suffixes pushed so far correspond one to one to the input's, each in the wanted form"),
     "C11.call_form": dict(props=["C11", "C02"], text="format_call: an anonymous call's arguments get the form format_function_args decides, same arguments"),
 }
 
